@@ -8,7 +8,7 @@ from lib import Result, RMODES, OMODES, e_fmt, e_list, e_dy, model_call, run_sha
 
 RULE = ('stratified: (A) exhaustive quarter-LSB sweep over 3x the range of every format with n_word<=3 (quick) / <=6 (thorough), '
         'n_frac -8..n_word+8, all 10 mode pairs, as arrays by rotating routes; (B) random formats up to 52 bits, boundary-biased '
-        'values, every carrier that can hold them exactly, every route; (C) huge finite floats under saturate; (D) floats and integers with |v*2^n_frac| in [2^50, 2^62) (beyond the integer precision of float64) under both overflow modes, small and random words; (E) float arrays mixing an element of magnitude >= 2^64 with fractional ones under saturate; (X) complex scalars, lists, tuples and complex128 arrays (each component, flags, read-back, dtype). A case is non-trivial '
+        'values, every carrier that can hold them exactly, every route; (C) huge finite floats under saturate; (D) floats and integers with |v*2^n_frac| in [2^50, 2^62) (beyond the integer precision of float64) under both overflow modes, small and random words; (E) float arrays mixing an element of magnitude >= 2^64 with fractional ones under saturate; (T) non-zero floats so small that v*2^n_frac (n_frac < 0) is below the smallest subnormal double; (X) complex scalars, lists, tuples and complex128 arrays (each component, flags, read-back, dtype). A case is non-trivial '
         'when some element is changed by quantization (rounded or overflowed); distinct by hash of format, modes, carrier, route, values.')
 ASSUMPTIONS = ['carrier glue (np.array dtype inference on lists/tuples, float(str)) is exercised but has no Gallina counterpart']
 
@@ -142,6 +142,16 @@ def shard(shard, nshards, rng, tier, extra):
         cases.append({'s': s, 'nw': nw, 'nf': nf, 'r': rng.choice(RMODES), 'o': 'saturate', 'carrier': rng.choice(['arr:float64', 'list', 'tuple']),
                       'route': rng.choice(S.ROUTES[:3]), 'vals': vals})
     check_cases(cases, res, 'E:huge-mixed-with-fractional', keep_array=True)
+    # ---- (T) tiny floats into formats with n_frac < 0: v * 2^n_frac falls below the smallest subnormal double
+    cases = []
+    for _ in range((300 if tier == 'quick' else 6000) // nshards):
+        s, nw, nf = S.random_format(rng); nf = -rng.randint(1, 8)
+        vals = [rng.choice([1, -1]) * rng.choice([5e-324, 2.0 ** -1074, 2.0 ** -1070, 2.0 ** rng.randint(-1074, -1060), 3 * 2.0 ** -1074]) for _k in range(rng.choice([1, 2]))]
+        if not s: vals = [abs(v) if rng.random() < 0.7 else v for v in vals]
+        if rng.random() < 0.5: vals.append(float(rng.randint(0, 3) * 2 ** -nf))
+        cases.append({'s': s, 'nw': nw, 'nf': nf, 'r': rng.choice(RMODES), 'o': rng.choice(OMODES), 'carrier': rng.choice(['pyfloat', 'arr:float64', 'list']) if len(vals) == 1 else rng.choice(['arr:float64', 'list']),
+                      'route': rng.choice(S.ROUTES[:3]), 'vals': vals})
+    check_cases(cases, res, 'T:tiny-floats-negative-n_frac', huge=True, keep_array=True)
     # ---- (X) complex inputs: each component on its own
     cases = []
     for _ in range((800 if tier == 'quick' else 20000) // nshards):
